@@ -296,7 +296,25 @@ def hasOid (oid : Bytes) (es : List Ext) : Bool := es.any (fun e => e.oid == oid
 /-- number of extensions carrying `oid` (specification side; the code is `removeOne`) -/
 def countOid (oid : Bytes) (es : List Ext) : Nat := (es.filter (fun e => e.oid == oid)).length
 
-/-- the loop of `removeExtension`: the single extension with `oid` is deleted; `none` if there is none or a second one -/
+/-- the search loop of `removeExtension`, literally: the **regenerated** loop body `Gen.removeExtensionStep`
+(`extAt`, the index `i`, whether `ext.Id.Equal(oid)`) folded over the extensions; `none` = "multiple extensions" error -/
+def findLoop (oid : Bytes) : List Ext → Int → Int → Option Int
+  | [], _, extAt => some extAt
+  | e :: es, i, extAt =>
+    match Gen.removeExtensionStep extAt i (e.oid == oid) with
+    | none => none
+    | some a => findLoop oid es (i + 1) a
+
+/-- … followed by the regenerated `if extAt == -1` error and `append(exts[:extAt], exts[extAt+1:]...)` -/
+def removeOneGo (oid : Bytes) (es : List Ext) : Option (List Ext) :=
+  match findLoop oid es 0 (-1) with
+  | none => none
+  | some extAt =>
+    if Gen.removeExtensionAbsent extAt then none
+    else some (es.take extAt.toNat ++ es.drop (extAt.toNat + 1))
+
+/-- the same as a structural recursion (proved equal to `removeOneGo` in CTV/Lemmas/Tbs.lean: `removeOneGo_eq`): the single
+extension with `oid` is deleted; `none` if there is none or a second one -/
 def removeOne (oid : Bytes) : List Ext → Option (List Ext)
   | [] => none
   | e :: es =>
@@ -306,7 +324,7 @@ def removeOne (oid : Bytes) : List Ext → Option (List Ext)
       | some r => some (e :: r)
 
 def removeExtT (oid : Bytes) (t : Tbs) : Option Tbs :=
-  match removeOne oid (t.exts.getD []) with
+  match removeOneGo oid (t.exts.getD []) with
   | none => none
   | some es => some { t with exts := some es }
 
